@@ -303,7 +303,7 @@ prop("C16", explanation="ghost bit sequence b[0..n], n <= 10 over u8 words (all 
 prop("C17", explanation="each provided backend operation against the ghost stack/queue contract from every (buffer,pos) with <= 4 words")
 prop("C18", explanation="size/emptiness/exhaustion queries tied to the export at the same state")
 prop("C19", level="model_checking", explanation="constructors: Ok <=> valid input, over all small tables / all ranges of narrow types; clean panics permitted")
-prop("C20", explanation="per type with unsafe code: constructors establish the invariant, safe methods preserve it, invariant implies each unsafe precondition; "
+prop("C20", level="model_checking", explanation="per type with unsafe code: constructors establish the invariant, safe methods preserve it, invariant implies each unsafe precondition; "
      "Kani's automatic pointer / unsafe-precondition / overflow checks located in /repo/src are the obligations")
 
 claim("C01", "Per-step contract decode(encode(c,e),e) == (sym,c) with invariant preservation for every state/entry at (u8,u16) on the real code; "
